@@ -189,3 +189,15 @@ void h_fill_array64_plain(void) {
     "fill_array64: output word a continues the SFMT recurrence over old-state ++ output");
   __CPROVER_assert(W(st+4*j) == W(OUT(SP_SZ-SP_N+j)), "fill_array64: saved state == last N output words");
 }
+
+/* Quick-tier part of the fill_array64 postcondition: the saved generator state equals the
+   last N words produced (so the next refill continues the same stream) - a copy relation,
+   cheap for SAT; the recurrence clause for the produced words stays in h_fill_array64_plain. */
+void h_fill_array64_state(void) {
+  uint32_t st[SP_N32]; uint64_t array[SP_BUF]; int idx = SP_N32, ini; int j;
+  __CPROVER_assume(ini != 0);
+  w_fill_array64(st, &idx, &ini, array, SP_BUF);
+  __CPROVER_assume(0 <= j && j < SP_N);
+  __CPROVER_assert(W(st+4*j) == W(OUT(SP_SZ-SP_N+j)), "fill_array64: saved state == last N output words (stream continues across refills)");
+  __CPROVER_assert(idx == SP_N32 && ini != 0, "fill_array64: idx stays N32, still initialized");
+}
